@@ -12,6 +12,7 @@ import (
 	"net"
 	"sort"
 	"strings"
+	"sync"
 	"time"
 
 	"github.com/emitter-io/emitter/internal/broker"
@@ -35,9 +36,23 @@ func (quiet) Printf(format string, v ...interface{})        {}
 
 // ---- client ------------------------------------------------------------------------------------
 
+// srvSock is the broker's end of a connection; it tells when the broker has closed it, which is the
+// last thing Conn.Close() does (after the unsubscribe loop and the last will).
+type srvSock struct {
+	net.Conn
+	done chan struct{}
+	once sync.Once
+}
+
+func (s *srvSock) Close() error {
+	s.once.Do(func() { close(s.done) })
+	return s.Conn.Close()
+}
+
 type client struct {
 	idx    int
 	conn   net.Conn
+	srv    *srvSock
 	pkts   chan mqtt.Message
 	closed chan struct{}
 	guid   string
@@ -48,7 +63,8 @@ type client struct {
 func newClient(svc *broker.Service, idx int) *client {
 	a, b := net.Pipe()
 	c := &client{idx: idx, conn: a, pkts: make(chan mqtt.Message, 4096), closed: make(chan struct{}), open: true}
-	_, c.guid = svc.VerifAttachConn(b)
+	c.srv = &srvSock{Conn: b, done: make(chan struct{})}
+	_, c.guid = svc.VerifAttachConn(c.srv)
 	go func() {
 		rd := bufio.NewReaderSize(a, 65536)
 		for {
@@ -274,8 +290,13 @@ type keyInfo struct {
 type scriptStep struct {
 	ci    int
 	x     int    // selects the kind of request like the random draw does: 0 sub, 30 unsub, 50 pub, 85 presence, 99 end
-	topic string // channel (without key) for sub / unsub / pub / presence
+	topic string // channel (without key) for sub / unsub / pub / presence / link
 	how   int    // way of ending
+	key   int    // index of the key to use (default 0 = everything on #/)
+	name  string // link name (x = 75: link request; x = 50 with a name: publish through the link)
+	sub   bool   // link request: subscribe as well
+	will  string // connect step: last will on this channel (with keys[key]); "" = random
+	pres  int    // presence request: 0 = status only, 1 = status:false changes:true, 2 = status:false changes:false, 3 = status:true changes:false
 }
 
 func history(lic license.License, mqttMode bool, nClients, steps int, script []scriptStep) (string, map[string]interface{}) {
@@ -346,8 +367,8 @@ func history(lic license.License, mqttMode bool, nClients, steps int, script []s
 	}
 	w.pending = make([][]mqtt.Message, nClients)
 
-	channels := []string{"a/", "a/b/", "b/a/", "a/a/", "b/b/", "a/b/c/", "b/", "x/x/y/", "y/", "a/+/", "a/#/", "+/b/", "#/", "a//b/", "a/b", "a b/", "", "a/?ttl=300", "a/b/?last=2", "a/b/?last=0", "a/?me=0", "a/b/c/?ttl=200&me=0"}
-	staticChannels := []string{"a/", "a/b/", "b/a/", "a/a/", "b/b/", "a/b/c/", "b/", "x/x/y/", "y/", "a/b/?ttl=500", "a/?me=0", "a/b/c/?ttl=200&me=0", "a/?ttl=100", "a/b/?me=1", "a/b/?ttl=2592001", "b/?ttl=31536000", "a/?ttl=2592000"}
+	channels := []string{"a/", "a/b/", "b/a/", "a/a/", "b/b/", "a/b/c/", "b/", "x/x/y/", "y/", "a/+/", "a/#/", "+/b/", "#/", "a//b/", "a/b", "a b/", "", "a/?ttl=300", "a/b/?last=2", "a/b/?last=0", "a/?me=0", "a/b/c/?ttl=200&me=0", "presence/", "presence/a/", "a/presence/"}
+	staticChannels := []string{"a/", "a/b/", "b/a/", "a/a/", "b/b/", "a/b/c/", "b/", "x/x/y/", "y/", "a/b/?ttl=500", "a/?me=0", "a/b/c/?ttl=200&me=0", "a/?ttl=100", "a/b/?me=1", "a/b/?ttl=2592001", "b/?ttl=31536000", "a/?ttl=2592000", "a/?ttl=0", "a/b/?ttl=0&me=0", "presence/", "presence/a/", "a/presence/"}
 	usernames := []string{"", "alice", "bob", "", "carol"}
 
 	var ops []string
@@ -389,11 +410,17 @@ func history(lic license.License, mqttMode bool, nClients, steps int, script []s
 			user := usernames[r.Intn(len(usernames))]
 			con := &mqtt.Connect{ClientID: []byte(fmt.Sprintf("c%d", ci)), Username: []byte(user), UsernameFlag: user != ""}
 			willTerm := "None"
-			if r.Intn(3) == 0 {
+			if r.Intn(3) == 0 || (sc != nil && sc.will != "") {
 				k := keys[r.Intn(len(keys))]
+				if r.Intn(4) == 0 {
+					k = keys[6] // a key that may not publish although it has the write permission (extendable)
+				}
 				ch := staticChannels[r.Intn(len(staticChannels))]
 				if r.Intn(6) == 0 {
 					ch = channels[r.Intn(len(channels))]
+				}
+				if sc != nil && sc.will != "" {
+					k, ch = keys[sc.key], sc.will
 				}
 				con.WillFlag = true
 				con.WillRetainFlag = r.Intn(3) == 0
@@ -433,8 +460,11 @@ func history(lic license.License, mqttMode bool, nClients, steps int, script []s
 			if r.Intn(30) == 0 {
 				topic = "garbage"
 			}
+			if len(heldBy[ci]) > 0 && r.Intn(4) == 0 { // the same filter once more
+				topic = heldBy[ci][r.Intn(len(heldBy[ci]))]
+			}
 			if sc != nil {
-				topic = keys[0].str + "/" + sc.topic
+				topic = keys[sc.key].str + "/" + sc.topic
 			}
 			mid := nextMid(cl)
 			qos := uint8(r.Intn(2))
@@ -450,7 +480,7 @@ func history(lic license.License, mqttMode bool, nClients, steps int, script []s
 				topic = heldBy[ci][j]
 			}
 			if sc != nil {
-				topic = keys[0].str + "/" + sc.topic
+				topic = keys[sc.key].str + "/" + sc.topic
 			}
 			mid := nextMid(cl)
 			cl.send(&mqtt.Unsubscribe{Header: mqtt.Header{QOS: 1}, MessageID: mid, Topics: []mqtt.TopicQOSTuple{{Topic: []byte(topic)}}})
@@ -464,15 +494,21 @@ func history(lic license.License, mqttMode bool, nClients, steps int, script []s
 				ch = channels[r.Intn(len(channels))]
 			}
 			topic := k.str + "/" + ch
-			if r.Intn(12) == 0 {
-				topic = vlib.Pick2(r, "l1", "l2", "zz9") // link names (maybe undefined)
+			if r.Intn(8) == 0 {
+				topic = vlib.Pick2(r, "l1", "l2", "l1", "l2", "zz9") // link names (maybe undefined)
 			}
 			if sc != nil {
-				topic = keys[0].str + "/" + sc.topic
+				topic = keys[sc.key].str + "/" + sc.topic
+				if sc.name != "" {
+					topic = sc.name
+				}
 			}
 			mid := nextMid(cl)
 			payload := []byte(fmt.Sprintf("m%d-%d", ci, s))
 			retain := r.Intn(5) == 0
+			if sc != nil {
+				retain = sc.sub
+			}
 			cl.send(&mqtt.Publish{Header: mqtt.Header{QOS: 1, Retain: retain}, MessageID: mid, Topic: []byte(topic), Payload: payload})
 			got, _ := cl.waitFor(isType(mqtt.TypeOfPuback))
 			w.pending[ci] = append(w.pending[ci], got...)
@@ -480,8 +516,11 @@ func history(lic license.License, mqttMode bool, nClients, steps int, script []s
 		case x < 80: // link request
 			k := keys[r.Intn(len(keys))]
 			name := vlib.Pick2(r, "l1", "l2", "l1", "toolong", "")
-			ch := staticChannels[r.Intn(9)]
+			ch := staticChannels[r.Intn(len(staticChannels))]
 			sub := r.Intn(2) == 0
+			if sc != nil {
+				k, name, ch, sub = keys[sc.key], sc.name, sc.topic, sc.sub
+			}
 			mid := nextMid(cl)
 			req, _ := json.Marshal(map[string]interface{}{"name": name, "key": k.str, "channel": ch, "subscribe": sub})
 			cl.send(&mqtt.Publish{Header: mqtt.Header{QOS: 1}, MessageID: mid, Topic: []byte("emitter/link/"), Payload: req})
@@ -490,11 +529,19 @@ func history(lic license.License, mqttMode bool, nClients, steps int, script []s
 			step(ci, vlib.App("OLink", vlib.N(uint64(mid)), vlib.Str(name), vlib.Str(k.str), vlib.Str(ch), vlib.Bool(sub)), "link")
 		case x < 92: // presence request
 			k := keys[r.Intn(len(keys))]
-			ch := vlib.Pick2(r, "a/", "a/b/", "b/", "a/b/c/", "a", "b/a/")
+			ch := vlib.Pick2(r, "a/", "a/b/", "b/", "a/b/c/", "a", "b/a/", "presence/", "presence/a/")
 			status := r.Intn(3) != 0
 			changes := r.Intn(3) // 0 = absent, 1 = true, 2 = false
 			if sc != nil {
-				k, ch, status, changes = keys[0], sc.topic, true, 0
+				k, ch, status, changes = keys[sc.key], sc.topic, true, 0
+				switch sc.pres {
+				case 1:
+					status, changes = false, 1
+				case 2:
+					status, changes = false, 2
+				case 3:
+					status, changes = true, 2
+				}
 			}
 			m := map[string]interface{}{"key": k.str, "channel": ch, "status": status}
 			if changes == 1 {
@@ -533,6 +580,11 @@ func history(lic license.License, mqttMode bool, nClients, steps int, script []s
 			case <-time.After(2 * time.Second):
 			}
 			cl.conn.Close()
+			// the broker side has run Conn.Close() to its end (unsubscribe loop, last will, socket)
+			select {
+			case <-cl.srv.done:
+			case <-time.After(3 * time.Second):
+			}
 			cl.open = false
 			connected[ci] = false
 			w.pending[ci] = append(w.pending[ci], cl.drain()...)
@@ -557,7 +609,7 @@ func history(lic license.License, mqttMode bool, nClients, steps int, script []s
 	sort.Strings(dump)
 	// what the message store holds at the end: channel, payload and ttl of every stored message
 	var stored []string
-	for _, lvl := range []string{"a", "b", "x", "y"} {
+	for _, lvl := range []string{"a", "b", "x", "y", "presence"} {
 		f, _ := svc.VerifStorage().Query(message.Ssid{lic.Contract(), hash.OfString(lvl)}, time.Unix(0, 0), time.Unix(0, 0), nil, 100000)
 		for _, m := range f {
 			stored = append(stored, vlib.Pair(vlib.Pair(vlib.Bytes(m.Channel), vlib.Bytes(m.Payload)), vlib.N(uint64(m.TTL))))
@@ -705,6 +757,50 @@ func main() {
 			{ci: 1, x: 0, topic: "a/b/?last=3"}}
 		t, h := history(lics[v%3], v == 2, 2, 0, sc)
 		sh.Add(t, h, "scenario/replay-on-repeated-subscription", true)
+	}
+	// directed scenarios: the same filter subscribed twice, removed once (by UNSUBSCRIBE, then by the
+	// connection ending), with a watcher of presence changes and publishes in between
+	for v := 0; v < 4; v++ {
+		pubs := []scriptStep{{ci: 1, x: 50, topic: "a/b/"}, {ci: 1, x: 85, topic: "a/b/"}}
+		sc := []scriptStep{{ci: 0}, {ci: 1}, {ci: 1, x: 85, topic: "a/b/", pres: 1}, {ci: 0, x: 0, topic: "a/b/"}, {ci: 0, x: 0, topic: "a/b/"}}
+		sc = append(sc, pubs...)
+		sc = append(sc, scriptStep{ci: 0, x: 30, topic: "a/b/"})
+		sc = append(sc, pubs...)
+		sc = append(sc, scriptStep{ci: 0, x: 0, topic: "a/b/"}, scriptStep{ci: 0, x: 75, name: "l1", topic: "a/b/", sub: true}, scriptStep{ci: 0, x: 0, topic: "a/b/"})
+		sc = append(sc, pubs...)
+		sc = append(sc, scriptStep{ci: 0, x: 99, how: v})
+		sc = append(sc, pubs...)
+		t, h := history(lics[v%3], false, 2, 0, sc)
+		sh.Add(t, h, "scenario/filter-subscribed-twice", true)
+	}
+	// directed scenarios: links that carry channel options (me=0, ttl), used by a connection that is
+	// subscribed to the channel itself
+	for v := 0; v < 3; v++ {
+		sc := []scriptStep{{ci: 0}, {ci: 1}, {ci: 0, x: 0, topic: "a/b/c/"}, {ci: 1, x: 0, topic: "a/b/c/"},
+			{ci: 0, x: 75, name: "l1", topic: "a/b/c/?me=0"}, {ci: 0, x: 75, name: "l2", topic: "a/b/c/?ttl=300"},
+			{ci: 0, x: 50, name: "l1"}, {ci: 0, x: 50, name: "l2"}, {ci: 0, x: 50, topic: "a/b/c/?me=0"}, {ci: 0, x: 50, topic: "a/b/c/"},
+			{ci: 1, x: 0, topic: "a/b/c/?last=5"}}
+		t, h := history(lics[v%3], false, 2, 0, sc)
+		sh.Add(t, h, "scenario/link-with-options", true)
+	}
+	// directed scenarios: retained publishes and last wills with ttl=0, last wills with a key that has
+	// the write permission but may not publish (extendable), every way of ending
+	for v := 0; v < 4; v++ {
+		sc := []scriptStep{{ci: 0}, {ci: 1, will: "a/b/", key: 6}, {ci: 0, x: 0, topic: "a/b/"},
+			{ci: 1, x: 50, topic: "a/b/?ttl=0", sub: true}, {ci: 1, x: 50, topic: "a/b/?ttl=0"}, {ci: 1, x: 50, topic: "a/b/", sub: true},
+			{ci: 0, x: 0, topic: "a/b/?last=5"}, {ci: 1, x: 99, how: v}, {ci: 0, x: 85, topic: "a/b/"}}
+		t, h := history(lics[v%3], false, 2, 0, sc)
+		sh.Add(t, h, "scenario/retain-ttl0-and-unpublishable-will", true)
+	}
+	// directed scenarios: a presence watch cancelled with status:false, and channels whose first word
+	// is the word "presence"
+	for v := 0; v < 3; v++ {
+		ch := []string{"a/b/", "presence/a/", "presence/"}[v]
+		sc := []scriptStep{{ci: 0}, {ci: 1}, {ci: 0, x: 85, topic: ch, pres: 1}, {ci: 1, x: 0, topic: ch}, {ci: 1, x: 30, topic: ch},
+			{ci: 0, x: 85, topic: ch, pres: 2}, {ci: 1, x: 0, topic: ch}, {ci: 1, x: 30, topic: ch},
+			{ci: 0, x: 85, topic: ch, pres: 1}, {ci: 1, x: 0, topic: ch}, {ci: 0, x: 85, topic: ch, pres: 3}, {ci: 1, x: 99, how: v}, {ci: 0, x: 85, topic: ch}}
+		t, h := history(lics[v%3], false, 2, 0, sc)
+		sh.Add(t, h, "scenario/presence-cancel-and-presence-word", true)
 	}
 	for _, n := range []int{150, 260} {
 		t, h := burst(lics[n%3], n)
